@@ -28,34 +28,34 @@ type MatchSpec struct {
 }
 
 type FilterSpec struct {
-	Chain        string     `json:"chain"`
-	Match        *MatchSpec `json:"match,omitempty"`
-	MocksBefore  int        `json:"mocks_before,omitempty"` // allow-mocks placed before the OIDC filter
-	IdP          int        `json:"idp"`
-	AppHost      string     `json:"app_host"` // host the browser uses, e.g. app-a.test
-	CallbackPath string     `json:"callback_path"`
-	CallbackPort string     `json:"callback_port,omitempty"` // "", "443"
-	CallbackQuery string    `json:"callback_query,omitempty"` // own query of the redirect URI, e.g. "?tenant=1"
-	ClientID     string     `json:"client_id"`
-	ClientSecret string     `json:"client_secret"`
-	SecretRef    string     `json:"secret_ref,omitempty"` // k8s Secret name instead of inline secret
-	SecretRefNS  string     `json:"secret_ref_ns,omitempty"`
-	Scopes       []string   `json:"scopes,omitempty"`
-	CookiePrefix string     `json:"cookie_prefix,omitempty"`
-	IDToken      TokenCfg   `json:"id_token"`
-	AccessToken  *TokenCfg  `json:"access_token,omitempty"`
-	Logout       *LogoutCfg `json:"logout,omitempty"`
-	AbsTimeout   int        `json:"abs_timeout,omitempty"`
-	IdleTimeout  int        `json:"idle_timeout,omitempty"`
-	Store        string     `json:"store"`               // memory | redis | redis2
-	Discovery    bool       `json:"discovery,omitempty"` // endpoints via configuration_uri
-	JWKSFetch    bool       `json:"jwks_fetch,omitempty"`
-	JWKSInterval int        `json:"jwks_interval,omitempty"`
+	Chain         string     `json:"chain"`
+	Match         *MatchSpec `json:"match,omitempty"`
+	MocksBefore   int        `json:"mocks_before,omitempty"` // allow-mocks placed before the OIDC filter
+	IdP           int        `json:"idp"`
+	AppHost       string     `json:"app_host"` // host the browser uses, e.g. app-a.test
+	CallbackPath  string     `json:"callback_path"`
+	CallbackPort  string     `json:"callback_port,omitempty"`  // "", "443"
+	CallbackQuery string     `json:"callback_query,omitempty"` // own query of the redirect URI, e.g. "?tenant=1"
+	ClientID      string     `json:"client_id"`
+	ClientSecret  string     `json:"client_secret"`
+	SecretRef     string     `json:"secret_ref,omitempty"` // k8s Secret name instead of inline secret
+	SecretRefNS   string     `json:"secret_ref_ns,omitempty"`
+	Scopes        []string   `json:"scopes,omitempty"`
+	CookiePrefix  string     `json:"cookie_prefix,omitempty"`
+	IDToken       TokenCfg   `json:"id_token"`
+	AccessToken   *TokenCfg  `json:"access_token,omitempty"`
+	Logout        *LogoutCfg `json:"logout,omitempty"`
+	AbsTimeout    int        `json:"abs_timeout,omitempty"`
+	IdleTimeout   int        `json:"idle_timeout,omitempty"`
+	Store         string     `json:"store"`               // memory | redis | redis2
+	Discovery     bool       `json:"discovery,omitempty"` // endpoints via configuration_uri
+	JWKSFetch     bool       `json:"jwks_fetch,omitempty"`
+	JWKSInterval  int        `json:"jwks_interval,omitempty"`
 	// TLS towards the IdP
-	CAInline  string `json:"ca_inline,omitempty"`
-	CAFile    string `json:"ca_file,omitempty"`
-	CARefresh string `json:"ca_refresh,omitempty"` // duration, e.g. "60s"
-	SkipVerify any   `json:"skip_verify,omitempty"` // bool or string form
+	CAInline   string `json:"ca_inline,omitempty"`
+	CAFile     string `json:"ca_file,omitempty"`
+	CARefresh  string `json:"ca_refresh,omitempty"`  // duration, e.g. "60s"
+	SkipVerify any    `json:"skip_verify,omitempty"` // bool or string form
 }
 
 type StringMatch struct {
